@@ -165,6 +165,7 @@ Section Parsers.
     | TGroup DBrace inner :: r => if is_empty inner then Ok (HStruct, r) else lib_err
     | TGroup DParen inner :: r => if is_empty inner then Ok (HTuple, r) else lib_err
     | TIdent "Unit" :: r => Ok (HUnit, r)
+    | [] => Err (MO2o "unexpected end of input, Only '()', '{}', and 'Unit' are supported type hints.")
     | _ => Err (MO2o "Only '()', '{}', and 'Unit' are supported type hints.")
     end.
 
